@@ -807,6 +807,8 @@ pub fn gen_origin(rng: &mut Rng) -> (OriginSpec, Option<String>) {
         1 => Some(rp.to_string()),
         _ => Some(host.clone()),
     };
+    // the member present but empty (not the same as absent: the empty string is no suffix of a host)
+    let rp_id = if rng.chance(1, 14) { Some(String::new()) } else { rp_id };
     // one caller in eight is an Android application (no port; the asset-link host plays the origin's role)
     let android = if rng.chance(1, 8) {
         let mut fp = [0u8; 32];
